@@ -227,4 +227,19 @@ META = {
                             "flag_option_combinations": 1000, "documented_refusals": 2, "distinct_nontrivial": 30000}},
         assumptions=["bits that exist only inside a multi-bit member cannot be named with allow_compound=False: those combinations are outside the bijection's domain for that configuration"],
     ),
+    "C19": _m(
+        "one case = 6 model programs (1-5 fields whose ids come from a dictionary of ~150 hostile identifiers: every local of the generated functions, the generators' "
+        "prefixes, builtins, keyword+underscore, soft keywords, dunder-ish, non-ASCII / NFKC-unstable, 300 characters; mapped through name_mapping to keys from ~85 hostile "
+        "strings: quotes, backslashes, braces, %, $, newlines / CR / FF / NUL / surrogates / unicode line separators, #, triple quotes, injection payloads that would create "
+        "a canary file or import a canary module; plain, nested and shared-branch paths; omit_default, ExtraForbid; one of 3 debug modes) each paired with a benign twin of "
+        "the same shape + 2 TypedDict programs (keyword / non-identifier keys) + 4 converter programs (hostile class names, get_converter(name=), impl_converter stub names, "
+        "link_function names, hostile field ids). Dictionary entries unused so far in the shard are preferred (every entry is used). Oracles: behaviour (dump = expected "
+        "layout, load(dump(x)) == x, unknown-key policy), AST isomorphism of hostile vs. benign generated sources, tracked payloads only inside string constants / "
+        "comments, audit-hook canary (exec, compile, import, open, os.system, subprocess) while the generated functions run. distinct = program descriptor",
+        cases=(30, 900), budget=(50, 420),
+        minimums={"quick": {"programs": 2500, "sources_compared": 1500, "sources_captured": 4000, "audit_selftests": 8, "audit_events_seen_while_armed": 1, "dictionary_ids_used": 600,
+                            "dictionary_keys_used": 400, "converter_class-names": 100, "converter_stub-name": 100, "typeddict_keyword": 60, "distinct_nontrivial": 2500}},
+        assumptions=["the generated-source monitor wraps BasicClosureCompiler._compile from the harness; the audit hook's own self-test must pass or the run is inconclusive",
+                     "field ids are legal Python identifiers (dataclass) or arbitrary TypedDict keys; class and function names are arbitrary strings (type() accepts them)"],
+    ),
 }
